@@ -13,9 +13,11 @@ VARIANTS = [[1, 3, 2, 1], [2, 4, 2, 2], [3, 6, 2, 3], [2, 6, 1, 1], [1, 5, 3, 2]
 
 
 def variants(rng_seed):
+    # PSEED (last argument) shapes the program itself: 6 different programs per shape
     out = []
-    for i, v in enumerate(VARIANTS):
-        out.append(v + [rng_seed * 10 + i])
+    for j in range(6):
+        for i, v in enumerate(VARIANTS):
+            out.append(v + [rng_seed * 1000 + j * 10 + i])
     return out
 
 
